@@ -482,7 +482,9 @@ func (i *importer) importMessage(dbcMsg *dbc.Message) error {
 	muxSignals := []*dbc.Signal{}
 	muxSigNames := make(map[string]int)
 
-	slices.SortFunc(dbcMsg.Signals, func(a, b *dbc.Signal) int { return int(a.StartBit) - int(b.StartBit) })
+	// sorted by position in the payload, which for big endian signals is not the order of the DBC start bits:
+	// a multiplexer has to come before the signals it multiplexes
+	slices.SortFunc(dbcMsg.Signals, func(a, b *dbc.Signal) int { return i.getSignalStartBit(a) - i.getSignalStartBit(b) })
 
 	var currByteOrder dbc.SignalByteOrder
 	for idx, dbcSig := range dbcMsg.Signals {
